@@ -534,6 +534,11 @@ class Gen:
 
     def member(self, cname, static_class, tparams):
         vis = self.r.choice(["public", "private", "protected"])
+        # a member written without a visibility keyword: private in an ordinary class, public in a static one
+        omit = self.r.random() < 0.2
+        vsrc = [] if omit else [vis]
+        if omit:
+            vis = "public" if static_class else "private"
         k = self.r.randint(0, 9)
         if static_class:
             k = self.r.choice([0, 1, 2, 5, 6])
@@ -556,7 +561,7 @@ class Gen:
             if init is not None:
                 node.append(init)
             # legal prefix orders: annotations may precede the visibility or follow the modifiers
-            pre = [vis] + (["static"] if static else [])
+            pre = vsrc + (["static"] if static else [])
             if tracked:
                 pre = (["@tracked"] + pre) if self.r.random() < 0.5 else (pre + ["@tracked"])
             if final:
@@ -589,7 +594,7 @@ class Gen:
             if quantum:
                 node.append("quantum")
             node += [mname, ("params", ps), ret, body if body is not None else "nobody"]
-            pre = [vis] + mods
+            pre = vsrc + mods
             if quantum:
                 pre = (["@quantum"] + pre) if self.r.random() < 0.5 else (pre + ["@quantum"])
             src = " ".join(pre) + " function %s(%s) -> %s" % (mname, self.rparams(ps), self.rtype(ret))
